@@ -11,6 +11,7 @@ process); gate / fail-closed / after / chunking theorems; tie = the real wrapper
 in front of the three real protocols, stub PGP oracle.
 '''
 import json
+import os
 import random
 import struct
 
@@ -59,6 +60,26 @@ REAL = {
     'log': [{'kind': 'rec', 'msg': 'a'}, {'kind': 'rec', 'msg': 'bb ' * 20},
             {'kind': 'rec', 'msg': ''}],
 }
+
+
+FP_FILE = os.path.join(core.VERIF, 'corpus', 'C14', 'fingerprints.json')
+
+
+def fingerprints():
+    fps = {}
+    for path, names in FP:
+        fps.update({path.split('/')[-1] + ':' + k: v for k, v in core.fingerprint(path, names).items()})
+    return fps
+
+
+def expected_fingerprints():
+    """reference fingerprints of the functions the models were written against
+    (committed; regenerate with `python3 props/C14.py --write-fingerprints` after
+    re-reading the code and the models -- never written by a check run)"""
+    try:
+        return json.load(open(FP_FILE))
+    except (OSError, ValueError):
+        return {}
 
 
 def fr(p):
@@ -733,10 +754,17 @@ def run(ctx):
         'not covered: TLS path (no wrapper), client side blocking receive (message.receive, '
         'Connector.__do), what _process/do/handle do with a delivered message',
     )
-    fps = {}
-    for path, names in FP:
-        fps.update({path.split('/')[-1] + ':' + k: v for k, v in core.fingerprint(path, names).items()})
+    fps = fingerprints()
     ctx.note('fingerprints', fps)
+    expect = expected_fingerprints()
+    changed = sorted(k for k in set(fps) | set(expect) if fps.get(k) != expect.get(k))
+    ctx.note('escalated_by_fingerprint', bool(changed))
+    ctx.note('changed_fingerprints', changed)
+    if changed and ctx.quick:
+        # a modelled function was edited: not a verdict, but the correspondence
+        # and the oracle now run at the thorough depth (DESIGN 5.2)
+        ctx.log('fingerprint changed (%s): thorough depth' % ', '.join(changed))
+        ctx.quick = False
     if ctx.replay:
         return replay(ctx)
     r = ctx.coq_props()
@@ -746,3 +774,11 @@ def run(ctx):
     if not r['ok']:
         ctx.broken('theorem/file %s' % r['failing'], r['log'],
                    {'source': 'proof', 'theorem': r['failing']})
+
+
+if __name__ == '__main__':
+    import sys
+    if sys.argv[1:] == ['--write-fingerprints']:
+        os.makedirs(os.path.dirname(FP_FILE), exist_ok=True)
+        json.dump(fingerprints(), open(FP_FILE, 'w'), indent=1, sort_keys=True)
+        print('wrote', FP_FILE)
